@@ -245,6 +245,12 @@ pub fn settle(cx: &mut Cx, complete_prop: &str, sound_prop: &str, entry: &str, f
             let d = detail();
             cx.violation(sound_prop, format!("{entry}/MustReject-accepted/{fault}"), d);
         }
+        (Verdict::MustReject, Seen::Crash(m)) => {
+            // the property asks for an error VALUE; a verifier that dies on a tampered frame does
+            // not return one (C08 sees the same event as a crash of the node)
+            let d = detail();
+            cx.violation(sound_prop, format!("{entry}/MustReject-crashed/{fault}"), format!("{m}: {d}"));
+        }
         (Verdict::MustReject, _) => {}
     }
 }
